@@ -11,6 +11,11 @@ LINES = {1: "clc", 2: "xor eax, eax", 3: "mov rax, rbx", 7: "nop7", 10: "mov rax
 SHORT = [1, 2, 3, 7, 10, 13]
 ALL_LENS = sorted(LINES)
 BOGUS = "bogus rax, 1"
+SKIPS = ["; a comment", "", "lbl:", "   ", "section .text", "; mov rax, rbx"]  # length label -1: lines that emit nothing
+
+
+def line_text(L, i=0):
+    return LINES[L] if L > 0 else (BOGUS if L == 0 else SKIPS[i % len(SKIPS)])
 RESERVE = 20
 
 
@@ -42,6 +47,10 @@ def gen_history(rnd, n, maxops=6):
                 prog = [rnd.choice(pool) for _ in range(rnd.randrange(1, max(2, min(400, n // 8 + 3))))]
             if rnd.random() < 0.15:
                 prog.insert(rnd.randrange(len(prog) + 1), 0)
+            if rnd.random() < 0.2:
+                # lines that emit nothing (comments, blank lines, labels, directives) - first, last or anywhere: no room is needed for them
+                for _ in range(rnd.choice([1, 1, 2, 5])):
+                    prog.insert(rnd.choice([0, len(prog), rnd.randrange(len(prog) + 1)]), -1)
             if rnd.random() < 0.25:
                 ops.append(("cnt", rnd.choice([0, 1, 2, 5, 8, 16, 64]), prog))
             else:
@@ -82,6 +91,9 @@ def templates():
     T.append(lambda n: [("debug", 1), ("debug", 0), ("asm", [1] * (n + 5)), ("asm", [13])])
     T.append(lambda n: [("debug", 0), ("chunk", 8), ("asm", [13] * (n // 8 + 2))])
     T.append(lambda n: [("asm", [3] * 2), ("debug", 0), ("setoff", max(0, n - 19)), ("asm", [1]), ("cnt", 8, [13, 13])])
+    T.append(lambda n: [("setoff", n), ("asm", [-1, -1])])                                  # nothing to emit: no room needed
+    T.append(lambda n: [("setoff", max(0, n - 19)), ("asm", [-1, 1, -1])])                  # a comment first does not exempt the instruction behind it
+    T.append(lambda n: [("setoff", max(0, n - 21)), ("asm", [-1, 1, -1, 1, -1]), ("cnt", 8, [-1, 13])])
     while len(T) < 40:
         seed = fixed.randrange(1 << 30)
         T.append(lambda n, seed=seed: gen_history(random.Random(seed * 1000 + n), n))
@@ -100,9 +112,9 @@ def to_cmds(n, place, hist, fill="0xcc"):
         elif op[0] == "setoff":
             cmds.append("setoff 0 %d" % op[1])
         elif op[0] == "asm":
-            cmds.append("asm 0 %s" % common.hx("\n".join(LINES[L] if L else BOGUS for L in op[1])))
+            cmds.append("asm 0 %s" % common.hx("\n".join(line_text(L, i) for i, L in enumerate(op[1]))))
         elif op[0] == "cnt":
-            cmds.append("cnt 0 %d %s" % (op[1], common.hx("\n".join(LINES[L] if L else BOGUS for L in op[2]))))
+            cmds.append("cnt 0 %d %s" % (op[1], common.hx("\n".join(line_text(L, i) for i, L in enumerate(op[2])))))
     cmds.append("guard 0")
     return cmds
 
@@ -112,6 +124,7 @@ def must_fail(n, off, lens, c_fit, lenmap):
     or a line is malformed, or the offset is invalid)"""
     if off < 0:
         return "negative-offset"
+    lens = [L for L in lens if L != -1]  # lines that emit nothing need no room
     if 0 in lens:
         real = lens[:lens.index(0)]
     else:
